@@ -114,20 +114,37 @@ def build_tools(profiles):
             return False, f'harness build ({p}) against /repo failed:\n' + out[-1500:]
     return True, ''
 
-def run_family(prop, fam, nh, maxops, seed, profile, aspects, rundir, tag=''):
+def run_family(prop, fam, nh, maxops, seed, profile, aspects, rundir, tag='', budget_s=None):
     exe = os.path.join(TARGET, 'release' if profile == 'release' else 'debug', 'gharness')
     base = os.path.join(rundir, f'{fam}{tag}.{profile}')
-    code, out = sh([exe, '--seed', str(seed), '--histories', str(nh), '--family', fam, '--maxops', str(maxops),
-                    '--out', base + '.trace', '--stats', base + '.json'], timeout=3000)
-    res = dict(family=fam, profile=profile, histories=nh, seed=seed, trace=base + '.trace', harness_exit=code, harness_out=out[-400:])
+    # a hang (e.g. hashbrown probing a table that has no empty slot left) must not stall the check
+    if budget_s is None:
+        budget_s = 60 + (nh * maxops) // (1500 if fam != 'big' else 800)
+    res = dict(family=fam, profile=profile, histories=nh, seed=seed, trace=base + '.trace', maxops=maxops)
+    try:
+        code, out = sh([exe, '--seed', str(seed), '--histories', str(nh), '--family', fam, '--maxops', str(maxops),
+                        '--out', base + '.trace', '--stats', base + '.json', '--progress', base + '.progress'], timeout=budget_s)
+    except subprocess.TimeoutExpired:
+        code, out = -9, f'no result after {budget_s}s (hang)'
+    res['harness_exit'] = code
+    res['harness_out'] = out[-400:]
     if code != 0:
         res['crashed'] = True
+        try:
+            res['crashed_in'] = open(base + '.progress').read().strip()
+        except Exception:
+            res['crashed_in'] = None
         res['stats'] = {}
         res['diffs'] = []
         res['viol'] = []
         res['ops'] = 0
         return res
-    res['stats'] = json.load(open(base + '.json'))
+    try:
+        res['stats'] = json.load(open(base + '.json'))
+    except Exception as e:
+        res.update(crashed=True, crashed_in=None, stats={}, diffs=[], viol=[], ops=0,
+                   harness_out='the harness wrote an unreadable statistics file (memory corruption?): %s' % e)
+        return res
     code, out = sh([os.path.join(ROOT, 'ocaml', 'driver'), f'--aspects={aspects}', base + '.trace'], timeout=3000)
     res['diffs'] = [l for l in out.split('\n') if l.startswith('DIFF')]
     m = re.search(r'TOTAL histories=(\d+) ops=(\d+) diffs=(\d+)', out)
@@ -145,7 +162,8 @@ def hist_of(text):
 def write_replay(prop, rundir, kind, hid, profile, detail, trace):
     os.makedirs(os.path.join(ROOT, 'replays'), exist_ok=True)
     path = os.path.join(ROOT, 'replays', f'{prop}-{int(time.time())}-{(hid or "none").replace(":", "_")}.json')
-    rec = dict(property=prop, kind=kind, history=hid, profile=profile, detail=detail)
+    rec = dict(property=prop, kind=kind, history=hid, profile=profile, detail=detail,
+               how_to_replay='python3 check.py %s --replay <this file>  (regenerates history family:seed:index on the current /repo and prints model vs implementation)' % prop)
     if hid and trace and os.path.exists(trace):
         code, out = sh([os.path.join(ROOT, 'tools', 'hist.py'), trace, hid])
         rec['trace'] = out.split('\n')[:4000]
@@ -218,14 +236,19 @@ def main():
                 maxops = cfg.get('big_thorough', maxops)
             for profile in cfg['profiles']:
                 runs.append(run_family(prop, fam, nh, maxops, seed, profile, cfg['aspects'], rundir))
+                if runs[-1].get('crashed') or runs[-1]['viol']:
+                    break
+            if runs and (runs[-1].get('crashed') or runs[-1]['viol']):
+                break
     diffs = [(r, d) for r in runs for d in r['diffs']]
     viols = [(r, v) for r in runs for v in r['viol']]
     crashed = [r for r in runs if r.get('crashed')]
     for r in crashed:
-        violations.append(('harness-crash', None, r['profile'], f"the harness process died (abort/segfault/hang) in family {r['family']}: {r['harness_out']}", None))
+        violations.append(('harness-crash', r.get('crashed_in'), r['profile'],
+                           f"the real crate hung, aborted or crashed while running history {r.get('crashed_in')} ({r['profile']} build): {r['harness_out']}", None))
 
     # extended search when the proof or the correspondence is broken but no monitor fired
-    if (problems or diffs) and not viols and okt:
+    if (problems or diffs) and not viols and not crashed and okt:
         for (fam, nq, nt, maxops) in cfg['families']:
             if fam == 'big':
                 continue
